@@ -1,7 +1,7 @@
 (* Entry points of the model, addressed by name over the line protocol. *)
 From Coq Require Import String.
 From Coq Require Import NArith ZArith List Bool.
-From DI Require Import Result PyStr Val Codec Version Dpkg Deps.
+From DI Require Import Result PyStr Val Codec Version Dpkg Deps Package Contents.
 Import ListNotations.
 Open Scope N_scope.
 
@@ -178,13 +178,47 @@ Definition dispatch_deps (fn : str) (args : list val) : option val :=
   | _ => None
   end.
 
+(* ---------- package / contents ---------- *)
+
+Definition VArchive (a : archive) : val :=
+  VList [VStr (a_name a); VVersion (a_version a); VOpt VStr (a_arch a); VStr (a_file a)].
+
+Definition VMdict (d : mdict) : val := VList (map (fun kv => VPair (VStr (fst kv)) (VStrs (snd kv))) d).
+
+Definition dispatch_pkg (fn : str) (args : list val) : option val :=
+  match args with
+  | [VStr a] =>
+      if fn_is "deb_from_filename" fn then Some (VRes VArchive (deb_from_filename a))
+      else if fn_is "code_from_filename" fn then Some (VRes VArchive (code_from_filename a))
+      else if fn_is "splitext" fn then Some (let '(x, y) := splitext a in VPair (VStr x) (VStr y))
+      else if fn_is "basename" fn then Some (VStr (basename a))
+      else None
+  | [VList files] =>
+      if fn_is "find_latest_version" fn then
+        Some (VRes (VOpt VArchive) (find_latest_version (val_strs files)))
+      else if fn_is "find_latest_versions" fn then
+        Some (VRes (VOpt (fun d => VList (map (fun kv => VPair (VStr (fst kv)) (VArchive (snd kv))) d)))
+                   (find_latest_versions (val_strs files)))
+      else None
+  | [VBool h; VList lines] =>
+      if fn_is "parse_contents_lines" fn then
+        Some (VRes (fun st => VPair (VMdict (fst st)) (VMdict (snd st)))
+                   (parse_contents_lines h (val_strs lines)))
+      else None
+  | _ => None
+  end.
+
 Definition dispatch_all (fn : str) (args : list val) : val :=
   match dispatch_version fn args with
   | Some v => v
   | None =>
       match dispatch_deps fn args with
       | Some v => v
-      | None => dispatch fn args
+      | None =>
+          match dispatch_pkg fn args with
+          | Some v => v
+          | None => dispatch fn args
+          end
       end
   end.
 
